@@ -149,27 +149,47 @@ def build_impl():
 
 
 def run_driver(cases, timeout=900):
-    """cases: list of dicts -> list of results (one JSON object per case) from the in-package verif driver"""
+    """cases: list of dicts -> list of results (one JSON object per case) from the in-package verif driver.  If the code
+    under test ends the process (os.Exit / log.Fatal / an unrecovered panic in another goroutine), the case being processed
+    gets an error result and the remaining cases are run in a fresh process."""
     import tempfile
-    d = tempfile.mkdtemp(prefix="verif-driver-", dir=os.path.join(ROOT, ".build"))
-    try:
-        fin, fout = os.path.join(d, "in.jsonl"), os.path.join(d, "out.jsonl")
-        with open(fin, "w") as f:
-            for c in cases:
-                f.write(json.dumps(c) + "\n")
-        env = dict(GOENV, VERIF_IN=fin, VERIF_OUT=fout)
-        p = subprocess.run([os.path.join(HARNESS, "bin", "vflow.test"), "-test.run", "TestVerifDriver", "-test.timeout", "%ds" % timeout],
-                           env=env, stdout=subprocess.PIPE, stderr=subprocess.STDOUT, text=True, timeout=timeout + 30)
-        res = []
-        if os.path.exists(fout):
-            for l in open(fout):
-                if l.strip():
-                    res.append(json.loads(l))
-        while len(res) < len(cases):
-            res.append({"error": "driver produced no result (exit %s): %s" % (p.returncode, p.stdout[-400:])})
-        return res
-    finally:
-        shutil.rmtree(d, ignore_errors=True)
+    res = []
+    todo = list(cases)
+    restarts = 0
+    while todo:
+        d = tempfile.mkdtemp(prefix="verif-driver-", dir=os.path.join(ROOT, ".build"))
+        try:
+            fin, fout = os.path.join(d, "in.jsonl"), os.path.join(d, "out.jsonl")
+            with open(fin, "w") as f:
+                for c in todo:
+                    f.write(json.dumps(c) + "\n")
+            env = dict(GOENV, VERIF_IN=fin, VERIF_OUT=fout)
+            try:
+                p = subprocess.run([os.path.join(HARNESS, "bin", "vflow.test"), "-test.run", "TestVerifDriver", "-test.timeout", "%ds" % timeout],
+                                   env=env, stdout=subprocess.PIPE, stderr=subprocess.STDOUT, text=True, timeout=timeout + 30)
+                rc, tail = p.returncode, p.stdout[-400:]
+            except subprocess.TimeoutExpired:
+                rc, tail = -9, "timeout"
+            got = []
+            if os.path.exists(fout):
+                for l in open(fout):
+                    if l.strip():
+                        try:
+                            got.append(json.loads(l))
+                        except ValueError:
+                            break            # a line cut short by the process ending
+            res += got
+            todo = todo[len(got):]
+            if todo:
+                res.append({"error": "the process ended while this case was being processed (exit %s): %s" % (rc, tail.strip()[-300:])})
+                todo = todo[1:]
+                restarts += 1
+                if restarts > 50:
+                    res += [{"error": "driver keeps dying"}] * len(todo)
+                    todo = []
+        finally:
+            shutil.rmtree(d, ignore_errors=True)
+    return res
 
 
 def check_property_file(pid):
